@@ -136,6 +136,68 @@ func pointOf(o *mObj) (lat, lon float64, ok bool) {
 	return p.Coordinates[1], p.Coordinates[0], true
 }
 
+// rectOf returns the rectangle of a BOUNDS object (stored as an axis-aligned polygon).
+func rectOf(o *mObj) (minLat, minLon, maxLat, maxLon float64, ok bool) {
+	if o == nil || !o.spatial || o.kind != "bounds" {
+		return
+	}
+	var p struct {
+		Coordinates [][][]float64 `json:"coordinates"`
+	}
+	if json.Unmarshal([]byte(o.json), &p) != nil || len(p.Coordinates) != 1 || len(p.Coordinates[0]) != 5 {
+		return
+	}
+	minLat, minLon, maxLat, maxLon = 90, 180, -90, -180
+	for _, c := range p.Coordinates[0] {
+		if len(c) < 2 {
+			return 0, 0, 0, 0, false
+		}
+		minLon, maxLon = math.Min(minLon, c[0]), math.Max(maxLon, c[0])
+		minLat, maxLat = math.Min(minLat, c[1]), math.Max(maxLat, c[1])
+	}
+	return minLat, minLon, maxLat, maxLon, true
+}
+
+// whereRect classifies a rectangle object against a rectangular area under WITHIN (the object
+// lies entirely in the area) or INTERSECTS (they share a point): +1 clearly yes, -1 clearly no,
+// 0 too close to call. Circles are outside this reference (0).
+func (a *fenceArea) whereRect(cmd string, minLat, minLon, maxLat, maxLon float64) int {
+	if a.circle {
+		return 0
+	}
+	mLat, mLon := (a.maxLat-a.minLat)*0.05, (a.maxLon-a.minLon)*0.05
+	switch cmd {
+	case "within":
+		if minLat > a.minLat+mLat && maxLat < a.maxLat-mLat && minLon > a.minLon+mLon && maxLon < a.maxLon-mLon {
+			return 1
+		}
+		if minLat < a.minLat-mLat || maxLat > a.maxLat+mLat || minLon < a.minLon-mLon || maxLon > a.maxLon+mLon {
+			return -1
+		}
+	case "intersects":
+		if maxLat > a.minLat+mLat && minLat < a.maxLat-mLat && maxLon > a.minLon+mLon && minLon < a.maxLon-mLon {
+			return 1
+		}
+		if maxLat < a.minLat-mLat || minLat > a.maxLat+mLat || maxLon < a.minLon-mLon || minLon > a.maxLon+mLon {
+			return -1
+		}
+	}
+	return 0
+}
+
+// place classifies an object (point or rectangle) against the fence: sp = +1 / -1 / 0 as above;
+// (cLat, cLon) is the centre its straight path is drawn through; (rLat, rLon) the coordinate pair
+// a notification is recognised by (the point, or the rectangle's first corner).
+func (f *fenceDef) place(o *mObj) (sp int, cLat, cLon, rLat, rLon float64, ok bool) {
+	if lat, lon, isPt := pointOf(o); isPt {
+		return f.area.where(lat, lon), lat, lon, lat, lon, true
+	}
+	if a, b, c, d, isRect := rectOf(o); isRect {
+		return f.area.whereRect(f.cmd, a, b, c, d), (a + c) / 2, (b + d) / 2, a, b, true
+	}
+	return 0, 0, 0, 0, 0, false
+}
+
 type fenceMsg struct {
 	command  string
 	detect   string
@@ -202,9 +264,9 @@ func (f *fenceDef) expected(e *lmEntry, before, after *Model) (msgs []fenceMsg, 
 		if f.glob != "" && !globMatch(f.glob, id) {
 			return nil
 		}
-		lat, lon, ok := pointOf(old)
-		inside := ok && f.area.where(lat, lon) == 1
-		if ok && f.area.where(lat, lon) == 0 {
+		sp, _, _, _, _, ok := f.place(old)
+		inside := ok && sp == 1
+		if ok && sp == 0 {
 			ambiguous = true
 		}
 		// promised only for objects inside the area of a fence with default detection
@@ -249,11 +311,10 @@ func (f *fenceDef) expected(e *lmEntry, before, after *Model) (msgs []fenceMsg, 
 	if f.glob != "" && !globMatch(f.glob, id) {
 		return nil, false
 	}
-	lat, lon, ok := pointOf(nw)
+	newSp, ncLat, ncLon, lat, lon, ok := f.place(nw)
 	if !ok {
-		return nil, true // not a point: outside the reference semantics
+		return nil, true // neither a point nor a rectangle: outside the reference semantics
 	}
-	newSp := f.area.where(lat, lon)
 	if newSp == 0 {
 		return nil, true
 	}
@@ -284,11 +345,10 @@ func (f *fenceDef) expected(e *lmEntry, before, after *Model) (msgs []fenceMsg, 
 		var olat, olon float64
 		if old != nil && old.spatial {
 			var ok2 bool
-			olat, olon, ok2 = pointOf(old)
+			oldSp, olat, olon, _, _, ok2 = f.place(old)
 			if !ok2 {
 				return nil, true
 			}
-			oldSp = f.area.where(olat, olon)
 			if oldSp == 0 {
 				return nil, true
 			}
@@ -308,7 +368,12 @@ func (f *fenceDef) expected(e *lmEntry, before, after *Model) (msgs []fenceMsg, 
 			detect = "outside"
 			// both end points (spatially) outside: does the straight path cross the area?
 			if old != nil && old.spatial && oldSp == -1 && newSp == -1 {
-				switch f.area.crosses(olat, olon, lat, lon) {
+				// (the path is drawn between the centres; a rectangle that is "outside" a WITHIN
+				// fence may have its centre in or near the area: that is not called here)
+				if f.area.where(olat, olon) != -1 || f.area.where(ncLat, ncLon) != -1 {
+					return nil, true
+				}
+				switch f.area.crosses(olat, olon, ncLat, ncLon) {
 				case 1:
 					detect = "cross"
 				case 0:
@@ -359,9 +424,17 @@ func parseFenceMsg(body string) (fenceMsg, string, error) {
 	}
 	m := fenceMsg{command: raw.Command, detect: raw.Detect, id: raw.ID}
 	if raw.Object != nil {
-		if c, ok := raw.Object["coordinates"].([]interface{}); ok && len(c) >= 2 {
-			m.lon, _ = c[0].(float64)
-			m.lat, _ = c[1].(float64)
+		if c, ok := raw.Object["coordinates"].([]interface{}); ok && len(c) >= 1 {
+			if ring, isRing := c[0].([]interface{}); isRing && len(ring) > 0 {
+				// a polygon: recognised by its first corner
+				if pt, isPt := ring[0].([]interface{}); isPt && len(pt) >= 2 {
+					m.lon, _ = pt[0].(float64)
+					m.lat, _ = pt[1].(float64)
+				}
+			} else if len(c) >= 2 {
+				m.lon, _ = c[0].(float64)
+				m.lat, _ = c[1].(float64)
+			}
 		}
 	}
 	if raw.Fields != nil {
